@@ -138,7 +138,7 @@ def build_thresholds(sc, ec, tag0):
             obs.append(Oblig(f"C09/threshold/executes{tag}", [], BoolVal(False), "post", ("C09",), {"engine_error": "no single path"}))
             continue
         path, me = r1.path, r1.me
-        env1 = ex.locals["_invert_increasing_function"][-1][0].env
+        env1 = r1.roles()
         bp, bn, Vp, Vn, wp, wn = setup(ex, path, sc, ec, me)
         for b in (bp, bn):
             path.add(P.sorted_formula(*b.sym))          # L6, discharged in build_cm
@@ -149,7 +149,7 @@ def build_thresholds(sc, ec, tag0):
             obs.append(Oblig(f"C09/threshold/executes{tag}", [], BoolVal(False), "post", ("C09",), {"engine_error": "no single path"}))
             continue
         path = r2.path
-        env2 = ex.locals["_invert_increasing_function"][-1][0].env
+        env2 = r2.roles()
         hy = path.pc
         arith = [h for h in hy if not has_quant([h]) and "select" not in h.sexpr()]
         e = r1.ep if metric in ("tpr", "fnr") else r1.en
@@ -187,7 +187,7 @@ def build_thresholds(sc, ec, tag0):
         # tolerance at a few ulp)
         same = Or(th2 == th1, th1 == P.nxt_up(th2), th1 == P.nxt_dn(th2))
         obs.append(Oblig(f"C09/threshold/equal-when-nodes-are-scored-samples{tag}", hy2, Implies(side, same), "relational", ("C09",),
-                         {"key": f"C09/threshold[{metric},{sc},{ec}]"}))
+                         {"key": f"C09/threshold[{metric},{sc},{ec}]", "abstracted": True}))
         # the side condition is satisfiable (vacuity guard): checked by the canary mechanism of the driver
     return obs
 
